@@ -14,7 +14,7 @@ EXPLANATION = (
 
 
 def check(ctx, run):
-    run.rules_run = ['R07.1', 'R07.2', 'R07.3', 'R07.4', 'R07.5', 'R07.6', 'R07.7', 'R07.8']
+    run.rules_run = ['R07.1', 'R07.2', 'R07.3', 'R07.4', 'R07.5', 'R07.6', 'R07.7', 'R07.8', 'R07.9']
     editing.r06_2(ctx, run, rule='R07.1/R06.2')
     layout.r01_5(ctx, run, rule='R07.2/R01.5', which='ser')
     layout.r01_5(ctx, run, rule='R07.2/R06.3', which='builder')
@@ -25,4 +25,6 @@ def check(ctx, run):
     editing.r06_9(ctx, run, rule='R07.6/R06.9', which=('bytes',))
     editing.r07_8(ctx, run)
     accessors.name_variants_alike(ctx, run, 'R07.7', lambda p_: p_.startswith('functions::'))
+    from rules import layout as _layout
+    _layout.r01_2(ctx, run, rule='R07.9/R01.2')
     return report.finish(run, level='other', explanation=EXPLANATION, assumptions=["A1: inputs of the chain are canonical documents", "A2/A3"])
